@@ -220,7 +220,7 @@ fn pick_time(rng: &mut Rng) -> u64 {
 }
 
 fn pick_dur(rng: &mut Rng) -> u64 {
-    *rng.pick(&[1_000_000u64, 1_500_000, 2_000_000, 5_000_000, 10_000_000, 10_500_000, 11_000_000, 20_000_000, 30_000_000,
+    *rng.pick(&[0u64, 500_000, 1_000_000, 1_500_000, 2_000_000, 5_000_000, 10_000_000, 10_500_000, 11_000_000, 20_000_000, 30_000_000,
         31_000_000, 60_000_000, 3_600_000_000, 86_400_000_000, 7 * 86_400_000_000])
 }
 
@@ -647,7 +647,7 @@ pub fn run(ctx: &mut Ctx, e: &mut FdtEngine) {
     let durs: &[u64] = if thorough {
         &[1_000_000, 2_000_000, 5_000_000, 10_000_000, 10_500_000, 11_000_000, 20_000_000, 30_000_000, 31_000_000, 40_000_000, 60_000_000]
     } else {
-        &[1_000_000, 10_000_000, 11_000_000, 30_000_000, 31_000_000, 60_000_000]
+        &[0, 1_000_000, 10_000_000, 11_000_000, 30_000_000, 31_000_000, 60_000_000]
     };
     let mut k = 0;
     for d in durs {
